@@ -47,11 +47,22 @@ func c09AppSnapshot(c *apph.Chain) (c09AppSnap, error) {
 	return s, nil
 }
 
-// expected: external address -> normalised power (p * (2^32-1) / total over the key holders, truncated)
-func (s c09AppSnap) expected(chain string) map[string]*big.Int {
+// expected: external address -> normalised power (p * (2^32-1) / total over the key holders, truncated); still, if not nil,
+// restricts the members to the validators that are also bonded there (a validator jailed in the block's BeginBlock, before
+// the bridge's BeginBlocker, leaves the power index at once while the powers stay those of the last EndBlock)
+func (s c09AppSnap) expected(chain string, still map[string]int64) map[string]*big.Int {
 	total := int64(0)
+	in := func(op string) bool {
+		if still != nil {
+			if _, ok := still[op]; !ok {
+				return false
+			}
+		}
+		_, ok := s.keys[chain][op]
+		return ok
+	}
 	for op, p := range s.power {
-		if _, ok := s.keys[chain][op]; ok {
+		if in(op) {
 			total += p
 		}
 	}
@@ -60,7 +71,7 @@ func (s c09AppSnap) expected(chain string) map[string]*big.Int {
 		return out
 	}
 	for op, p := range s.power {
-		if ext, ok := s.keys[chain][op]; ok {
+		if ext := s.keys[chain][op]; in(op) {
 			out[strings.ToLower(ext)] = new(big.Int).Div(new(big.Int).Mul(big.NewInt(p), big.NewInt(1<<32-1)), big.NewInt(total))
 		}
 	}
@@ -107,16 +118,20 @@ func c09AppObserver() appObserver {
 		if !prev.ok {
 			return nil
 		}
-		jailBlock := op == "Absent2" || op == "DoubleSign2" // x/slashing / x/evidence may have jailed a validator before the bridge's BeginBlocker ran
+		// blocks without staking messages: whoever is no longer bonded after the block was jailed by x/slashing / x/evidence in
+		// its BeginBlock - before the bridge's BeginBlocker ran (the module order of app.go), so "the then-current validator
+		// set" of that BeginBlocker is the previous block's set without them
+		jailBlock := op == "Absent2" || op == "DoubleSign2"
+		noStakingMsgs := !(op == "UndelegateAll1" || op == "UndelegateHalf1" || op == "Delegate0" || op == "Unjail2")
 		for _, ch := range []string{"ethereum", "minter"} {
 			var lr mhubtypes.SignerSetTxResponse
 			if err := c.Query("/mhub2.v1.Query/LatestSignerSetTx", &mhubtypes.LatestSignerSetTxRequest{ChainId: ch}, &lr); err != nil {
 				return &engine.Violation{Property: "C09", Rule: "application_query_failed", Site: "app", Detail: err.Error()}
 			}
 			set := lr.SignerSet
-			refs := []map[string]*big.Int{prev.expected(ch)}
-			if jailBlock {
-				refs = append(refs, cur.expected(ch))
+			refs := []map[string]*big.Int{prev.expected(ch, nil)}
+			if noStakingMsgs {
+				refs = []map[string]*big.Int{prev.expected(ch, cur.power)}
 			}
 			limit := new(big.Int).Div(new(big.Int).Mul(big.NewInt(5), big.NewInt(1<<32-1)), big.NewInt(100))
 			best := (*big.Int)(nil)
